@@ -24,6 +24,13 @@ CLAIMED = {
         'Necessary conditions of "sees every attribute" and of symmetry; reflexivity/transitivity on values are not executed.',
    note='Trusted: clang AST/CFG; getter-covers-field is computed from getter bodies. Known finding: variable counts are not compared (pinned by Equality.parseMath).',
    ref='DESIGN.md section 4, C10'),
+ 'C11': dict(
+   technique='static analysis: read/write field coverage of clone() over the Impl hierarchy, deep-copy (no shared entity pointer) and id-carrying-API rules on the call graph',
+   text='For every clone(): each attribute field of the Impl hierarchy (own and inherited, presence flags included) is read on the original and written on the copy through a method whose body writes that field; '
+        'entity-typed values handed to the copy are clone()/create() results or belong to the copy; the copy gets no parent; Model::clone reaches an API that carries mapping/connection ids. '
+        'Necessary conditions of a faithful, independent copy; serialisation equality is not executed.',
+   note='Trusted: clang AST; setter-writes-field computed from setter bodies. Known finding: clones share the ImportSource (pinned by Clone.modelWithImportedItems). Three clone defects were repaired (fix commits).',
+   ref='DESIGN.md section 4, C11'),
  'C16': dict(
    technique='static analysis: recogniser non-vacuity, grammar terminals read from the AST, exception-channel screening of std::sto*, use-site branch rules',
    text='Decides on all paths of the recognisers/conversions: no acceptance through std::all_of over an empty string; sign/digit/point/e-marker sets and count bounds equal the CellML grammar; '
